@@ -75,6 +75,7 @@ KF_LEADING_ONE = "KF-setitem-value-extra-leading-dim"
 KF_WHERE_0D = "KF-ufunc-where-0d-out"
 KF_NEG_ZERO_CHUNK = "KF-negstep-slice-zero-width-chunk"
 KF_MASKED_0D = "KF-setitem-masked-0d"
+KF_ZERO_CHUNK_MASK = "KF-dask-mask-zero-width-chunks"
 KF_SEPARATED = "KF-index-int-fancy-separated"
 KF_RESHAPE0 = "KF-reshape-zero-size"
 
@@ -764,6 +765,7 @@ class Interp:
         try:
             r = t.coll.compute_chunk_sizes()
         except Exception as e:
+            self.tags |= t.tags
             return [(util.exc_bucket("compute_chunk_sizes-raises", e), util.exc_detail(e))]
         t.nmut += 1
         if others:
@@ -815,6 +817,8 @@ class Interp:
             self.tags.add(KF_NONE_KEY)
         if val == "masked" and t.mirror.ndim == 0:
             self.tags.add(KF_MASKED_0D)
+        if any(isinstance(e, dict) and "dfull" in e and any(len(c) > 1 and 0 in c for c in e["dfull"]["chunks"]) for e in key["tuple"]):
+            self.tags.add(KF_ZERO_CHUNK_MASK)
         if has_neg_step(key) and has_zero_chunk(t.coll):
             self.tags.add(KF_NEG_ZERO_CHUNK)
         if nonscalar and sel is not None and np.ndim(np_val) > len(sel):
@@ -1287,6 +1291,9 @@ def _gen_key(D_, it, i, t, family):
         return {"tuple": [{"npfull": {"shape": list(shape), "bits": _bits(D_, int(np.prod(shape)))}}], "bare": True}, "ok"
     if form == "dfull":
         ch = t.coll.chunks if D_.bool() else gchunks.array_chunks(D_, shape)
+        if has_zero_chunk(t.coll) and ch is t.coll.chunks and _steer(KF_ZERO_CHUNK_MASK):
+            it.excluded.append(KF_ZERO_CHUNK_MASK)
+            ch = gchunks.array_chunks(D_, shape)
         return {"tuple": [{"dfull": {"shape": list(shape), "bits": _bits(D_, int(np.prod(shape))), "chunks": [list(map(int, c)) for c in ch]}}], "bare": True}, "ok"
     if form == "dcmp":
         cands = _members(it, lambda e: _plain(e) and e.shape == shape)
@@ -1952,6 +1959,7 @@ REGION_DOC = {
     KF_LEADING_ONE: "setitem with a value that has more dimensions than the selection (extra leading unit dimensions)",
     KF_WHERE_0D: "ufunc(..., out=v, where=mask) on a 0-d v",
     KF_MASKED_0D: "x[...] = np.ma.masked on a 0-d x",
+    KF_ZERO_CHUNK_MASK: "a full-shape dask mask whose chunks contain a zero-width block next to other blocks was assigned through; a later compute_chunk_sizes of the target fails",
     KF_NEG_ZERO_CHUNK: "negative-step slice of a collection whose chunks contain a zero-width block next to other blocks (typical after compute_chunk_sizes)",
     KF_OUT_DTYPE: "ufunc(..., out=v) whose natural result dtype differs from v's dtype",
     KF_SLICE_UOUT: "a basic index / boolean mask (or compute_chunk_sizes, which slices internally) applied to a collection whose expression contains an ufunc out= result",
